@@ -110,6 +110,32 @@ func materialise(v goval) (val any, hasIdentity bool) {
 		p := reflect.New(reflect.TypeOf(inner))
 		p.Elem().Set(reflect.ValueOf(inner))
 		return p.Interface(), id
+	case "named":
+		type (
+			nU32  uint32
+			nInt  int
+			nStr  string
+			nF64  float64
+			nBool bool
+			nU8   uint8
+			nPtr  uintptr
+		)
+		switch v.U {
+		case "uint32":
+			return nU32(7), false
+		case "int":
+			return nInt(-7), false
+		case "string":
+			return nStr("named"), false
+		case "float64":
+			return nF64(2.5), false
+		case "bool":
+			return nBool(true), false
+		case "uint8":
+			return nU8(200), false
+		default:
+			return nPtr(9), false
+		}
 	case "samename":
 		return []any{rowOne(), rowTwo()}, false
 	case "nilslice":
